@@ -198,6 +198,20 @@ func (p *plRun) inlinable(f *ssa.Function) bool {
 	return errIndex(f.Signature) >= 0 || f.Signature.Results().Len() == 0
 }
 
+// tokConst: a token constant, directly or as a constant argument bound to a
+// parameter of an inlined helper.
+func (p *plRun) tokConst(v ssa.Value, ints intEnv) (int64, bool) {
+	if k, ok := constInt(v); ok {
+		return k, true
+	}
+	if par, ok := v.(*ssa.Parameter); ok {
+		if k, ok := ints[par]; ok {
+			return k, true
+		}
+	}
+	return 0, false
+}
+
 // errOutcome: is the error value v nil on this path? outSuccess (nil),
 // outFail (non-nil) or -1 (not known).
 func (p *plRun) errOutcome(v ssa.Value, ints intEnv) int {
@@ -378,7 +392,7 @@ func (p *plRun) run(cf plConfig, start int, trace []string, ints intEnv) {
 				}
 				fact = tokFact{}
 			case callee == c.A.Match:
-				k, ok := constInt(in.Call.Args[1])
+				k, ok := p.tokConst(in.Call.Args[1], ints)
 				if !ok {
 					p.unknown(in.Pos(), trace, "match() with a non-constant token")
 					return
@@ -413,7 +427,16 @@ func (p *plRun) run(cf plConfig, start int, trace []string, ints intEnv) {
 					ints2[call] = int64(outcome)
 					p.run(plConfig{blk: blk, dfa: d, fact: f, pending: pend}, resume, tr, ints2)
 				}
-				sub.walkE(plConfig{blk: callee.Blocks[0], dfa: dfa, fact: fact, pending: pending}, append([]string(nil), trace...), nil, intEnv{})
+				// constant token arguments are bound to the helper's parameters
+				sub0 := intEnv{}
+				for ai, par := range callee.Params {
+					if ai < len(in.Call.Args) && types.Identical(par.Type(), c.A.TokT) {
+						if k, ok := p.tokConst(in.Call.Args[ai], ints); ok {
+							sub0[par] = k
+						}
+					}
+				}
+				sub.walkE(plConfig{blk: callee.Blocks[0], dfa: dfa, fact: fact, pending: pending}, append([]string(nil), trace...), nil, sub0)
 				p.states += sub.states
 				p.events += sub.events
 				for _, f := range sub.findings {
@@ -528,7 +551,7 @@ func (p *plRun) run(cf plConfig, start int, trace []string, ints intEnv) {
 			// test of the current token?
 			if bo, ok := in.Cond.(*ssa.BinOp); ok && (bo.Op == token.EQL || bo.Op == token.NEQ) {
 				if p.isCurrentTok(bo.X) {
-					if k, ok := constInt(bo.Y); ok {
+					if k, ok := p.tokConst(bo.Y, ints); ok {
 						eqIdx := 0
 						if bo.Op == token.NEQ {
 							eqIdx = 1
